@@ -361,6 +361,48 @@ static void incdec(long base)
   }
 }
 
+// the prefix forms yield the operand itself: chained, and on a pointer that lives in sandbox memory
+template<typename T>
+static void incdec_more(long base)
+{
+  const long s = GuestSize<T>::v;
+  static tainted<T**, Sbx> cellp = sb->malloc_in_sandbox<T*>();
+  for (int which = 0; which < 4; which++) {
+    // 0: ++(++p)   1: --(--p)   2: q = ++(*cell)   3: q = --(*cell)
+    auto p = ptr_at<T>(base);
+    g_abort_flag = false;
+    tainted<T*, Sbx> ret;
+    const void* after = nullptr;
+    if (which == 0) {
+      ret = ++(++p);
+      after = p.UNSAFE_unverified();
+    } else if (which == 1) {
+      ret = --(--p);
+      after = p.UNSAFE_unverified();
+    } else {
+      if (base == 0) {
+        continue; // (offset 0 is the representation of null: not storable as a non-null pointer)
+      }
+      *cellp = p;
+      if (which == 2) {
+        ret = ++(*cellp);
+      } else {
+        ret = --(*cellp);
+      }
+      tainted<T*, Sbx> now = *cellp;
+      after = now.UNSAFE_unverified();
+    }
+    tr::Ev e("ptrop");
+    e.str("op", which % 2 == 0 ? "++pre" : "--pre").str("pt", GuestSize<T>::name).str("nty", "i32");
+    e.str("w", which < 2 ? "P" : "V").num("base", base < 0 ? -1 : base).num("s", s).num("size", SIZE).wide("n", which < 2 ? 2 : 1);
+    e.str("out", g_abort_flag ? "abort" : "ok");
+    e.boolean("rnull", after == nullptr).wide("r", after ? rel(after) : 0);
+    const void* rv = ret.UNSAFE_unverified();
+    e.wide("ret", rv ? rel(rv) : 0);
+    out.put(e);
+  }
+}
+
 template<typename T>
 static void c05_pointee(std::mt19937_64& rng, bool thorough, bool dense)
 {
@@ -368,6 +410,9 @@ static void c05_pointee(std::mt19937_64& rng, bool thorough, bool dense)
   std::vector<long> bases = { 0, SIZE - s, 2048, -1 };
   for (long base : bases) {
     incdec<T>(base);
+    if (base >= 0) {
+      incdec_more<T>(base);
+    }
     for (int op = 0; op < 6; op++) {
       for (int w = 0; w < 3; w++) {
         if (base >= 0 && dense && (w == 0 || thorough)) {
